@@ -64,6 +64,43 @@ theorem c05_restored_after_history (ops : List Op) (hst : ∀ op ∈ ops, TraceO
     have h2 := ih (fun o ho => hst o (List.mem_cons_of_mem _ ho)) (stepOp genCfg s op).1 h1.1
     exact ⟨h2.1, h2.2.trans h1.2⟩
 
+/-! ### Executions nested in one another (the reason why `_current_patches` / `_current_stdout` are stacks) -/
+
+/-- The generated ladder does the same whatever is already on the stacks: the plan computed at any depth is the
+    plan computed from empty stacks (`c05_ladder_balanced` includes: it never pops a stack that is empty and never
+    goes below the depth it started at). -/
+theorem c05_ladder_depth_independent (b : Base) (sig : Sig) :
+    plan mockProbe b sig executeDef = plan mockProbe base0 sig executeDef :=
+  plan_any_base genCfg gen_checkC05 b sig
+
+/-- An execution started in ANY state of the stacks - i.e. while any number of other executions are in progress
+    on the same sandbox - whose running code starts further executions `inner` that leave things as they found
+    them: both stacks and every borrowed global are exactly what they were when it started, however it ends. -/
+theorem c05_restored_when_nested (style : TraceStyle) (nested : Bool) (hst : TraceOK style nested)
+    (inner : St → St) (hin : Framed inner) (s : St) (t : Termination) (inject : Bool) :
+    (executeN genCfg style nested s t inject inner).1.patches = s.patches ∧
+    (executeN genCfg style nested s t inject inner).1.stdouts = s.stdouts ∧
+    (executeN genCfg style nested s t inject inner).1.g = s.g :=
+  executeN_frames genCfg c05_probe_restores gen_checkC05 style nested hst inner hin s t inject
+
+/-- Every tree of executions - an execution through run / call / evaluate whose code starts further executions
+    on the same sandbox, to any depth, each ending in any way - leaves both stacks and the borrowed globals as
+    they were when its root started (induction over the tree). -/
+theorem c05_restored_after_nested (n : NOp) (h : n.traceOK = true) (s : St) :
+    (runN genCfg n s).patches = s.patches ∧ (runN genCfg n s).stdouts = s.stdouts ∧ (runN genCfg n s).g = s.g :=
+  runN_framed genCfg c05_probe_restores gen_checkC05 n h s
+
+/-- After ANY sequence of such trees, started with empty stacks: empty stacks, the original globals. -/
+theorem c05_restored_after_nested_history (ns : List NOp) (h : NOp.allTraceOK ns = true) (s : St) (hs : s.Inv) :
+    (runHistN genCfg s ns).Inv ∧ (runHistN genCfg s ns).g = s.g := by
+  obtain ⟨h1, h2, h3⟩ := runNs_framed genCfg c05_probe_restores gen_checkC05 ns h s
+  exact ⟨⟨h1.trans hs.1, h2.trans hs.2⟩, h3⟩
+
+/-- Without nested executions the two models coincide (the driver runs `execute` for plain histories). -/
+theorem c05_executeN_extends_execute (style : TraceStyle) (nested : Bool) (s : St) (t : Termination) (inject : Bool) :
+    executeN genCfg style nested s t inject id = execute genCfg style nested s t inject :=
+  executeN_id genCfg style nested s t inject
+
 /-- Student code gets a private copy of the builtins: no execution history changes the process-wide ones. -/
 theorem c05_builtins_private (ops : List Op) (hst : ∀ op ∈ ops, TraceOK op.style op.nested) (s : St)
     (hs : s.Inv) :
@@ -87,6 +124,27 @@ def exampleOps : List Op :=
 
 example : (stepOp genCfg St.init exampleOps[1]).2.1 = .propagated .student := by decide
 example : (runOps genCfg St.init exampleOps).Inv := by decide
+
+/-- Non-vacuity (evaluated): a run whose code starts an evaluate that raises and then a call whose own code starts
+    a run ending by KeyboardInterrupt (depth 3), the outer run then failing; inside, the stacks are NOT empty. -/
+def exampleTree : NOp :=
+  .mk { entry := .run, style := exampleStyle, nested := true, inject := false,
+        term := .raised { exampleBase with cls := "ZeroDivisionError", isException := true } }
+    [.mk { entry := .evaluate, style := exampleStyle, nested := false, inject := false,
+           term := .raised { exampleBase with cls := "ValueError", isException := true } } [],
+     .mk { entry := .call true, style := exampleStyle, nested := true, inject := false, term := .normal }
+       [.mk { entry := .run, style := exampleStyle, nested := false, inject := false, term := .raised exampleBase } []]]
+
+example : exampleTree.traceOK = true := by decide
+example : (runHistN genCfg St.init [exampleTree, exampleTree]).Inv := by decide
+example : (Wire.statePre genCfg St.init { entry := .run, style := exampleStyle, nested := false, inject := false,
+                                          term := .normal }).map (fun s => s.patches.length) = some 1 := by decide
+example : (runHistN genCfg St.init [exampleTree]).feedbacks.length = 2 := by decide
+
+/-- What the stack discipline is for (evaluated): a `_stop_patches` that pops the OLDEST frame instead of the
+    newest (probe `stopRestores` false for nested start/stop) would be invisible to every theorem about un-nested
+    executions only through the probe; the nested theorems need `c05_probe_restores`. -/
+example : mockProbe.stopRestores = true := c05_probe_restores
 
 /-! ### The full statement over every generated tracer style, and the region where it fails -/
 
